@@ -60,6 +60,7 @@ def judge_c01(rec):
     terminal = None
     first_state = True
     sampled = None
+    sampled_fp = None
     for idx, e in enumerate(rec['events']):
         if e[0] == 'state':
             frm, to = e[1], e[2]
@@ -90,6 +91,13 @@ def judge_c01(rec):
                     out.append(V('illegal-path', 'illegal-path:%s->%s:after=%s' % (sampled, state, cause),
                                  'sampled state went %s -> %s' % (sampled, state)))
             sampled = state
+            if state in TERMINAL and len(e) > 6:
+                fp = e[6:]
+                if sampled_fp is not None and sampled_fp[0] == state and sampled_fp[1] != fp:
+                    cause = _last_cause(rec, idx)
+                    out.append(V('terminal-content-changed', 'terminal-content-changed:%s:after=%s' % (state, cause),
+                                 'recorded outcome of terminal state %s changed from %s to %s after %s' % (state, sampled_fp[1], fp, cause)))
+                sampled_fp = (state, fp)
     fin = rec.get('final')
     if fin is not None and sampled is not None and fin['state'] != sampled:
         if sampled in TERMINAL:
@@ -170,6 +178,8 @@ def judge_c02(rec):
             if exp is None:
                 bad('finished-without-result-command', 'FINISHED but last executed step returned %s' % ret)
             else:
+                if rec['case'].get('req_output') and not programs.outputs_valid_req(fin['outputs']):
+                    exp = (exp[0], False)  # missing/invalid outputs: result preserved, unsuccessful
                 if fin['result'] != ['ok', exp[0]]:
                     bad('result-mismatch', 'result() %s but last step returned %s' % (fin['result'], ret))
                 if fin['successful'] != ['ok', exp[1]] or fin['is_successful'] != exp[1]:
@@ -198,7 +208,7 @@ def judge_c02(rec):
             bad('kill-text', 'future KilledError text %r differs from killed_msg text %r' % (fut[1][1], text))
     # listeners: exactly one terminal notification of the right kind
     if rec['case'].get('listener', True):
-        term = [e[2] for e in rec['events'] if e[0] == 'listener' and e[2] in TERMINAL]
+        term = [e[1] for e in rec['events'] if e[0] == 'listener' and e[1] in TERMINAL]
         if term != [state]:
             bad('terminal-notifications', 'terminal listener notifications %s for final state %s' % (term, state))
     ncleanup = sum(1 for e in rec['events'] if e[0] == 'cleanup')
@@ -289,13 +299,19 @@ def judge_c05(rec, check_trace=True):
                          '%s() raised %s (%s)' % (a['kind'], a['ret'][1], a['phase'])))
     # play leaves un-paused and cancels a pending pause
     expect_unpaused = None
+    open_acts = []  # requests issued from inside another request (listener callbacks) nest
+    nested_pause = set()
     for e in rec['events']:
         if e[0] == 'act':
             if e[2] == 'pause':
                 expect_unpaused = None
+                nested_pause.update(open_acts)
+            open_acts.append(e[1])
         elif e[0] == 'acted':
             a = acts[e[1]]
-            if a['kind'] == 'play' and a['ret'][0] == 'value':
+            if e[1] in open_acts:
+                open_acts.remove(e[1])
+            if a['kind'] == 'play' and a['ret'][0] == 'value' and e[1] not in nested_pause:
                 if e[4]:
                     out.append(V('play-left-paused', 'play-left-paused:%s' % pat(a['n']), 'paused right after play()'))
                 expect_unpaused = a['n']
@@ -312,7 +328,7 @@ def judge_c05(rec, check_trace=True):
             last_status = 'S%d' % e[2]
         elif e[0] == 'acted':
             a = acts[e[1]]
-            if a['kind'] == 'play' and a['paused_before'] and a['ret'][0] == 'value' and not a['term_after']:
+            if a['kind'] == 'play' and a['paused_before'] and a['ret'][0] == 'value' and not a['term_after'] and not a['paused_after']:
                 if a['status_after'] != last_status:
                     out.append(V('status-not-restored', 'status-not-restored:%s' % pat(a['n']),
                                  'status after play is %r, before the pause it was %r' % (a['status_after'], last_status)))
